@@ -286,6 +286,42 @@ def stream_rs(src):
     return "\n".join(out)
 
 
+def is_terminal_classes(src):
+    """{impl label: "false" | "polyfill" | "forward"}: every `impl IsTerminal for <T>` of stream.rs classified by what its
+    TRANSLATION computes (the constant false / the polyfill asked about self / the pointee's impl), whatever the body's
+    spelling -- for tools/gen_choice.py, whose table of the impls (C09's data) used to pin the three spellings textually"""
+    try:
+        items = parse_file(src)
+    except Exception as e:
+        raise TranslateError("parse error: %s" % e)
+    it = trait_impls(items, "IsTerminal", "is_terminal")
+    suffix = dict(HANDLES)
+    out = {}
+    n0 = len(drv.REGISTRY)
+    for lab, fn in it.items():
+        suf = suffix.get(lab)
+        if suf is None:
+            raise TranslateError("impl IsTerminal for %s: not in the vocabulary" % lab)
+        em = Emitter(v_is_terminal(suf in GENERIC), items)
+        try:
+            text, _shape = em.emit_fn(fn, "H_" + suf, "g_probe")
+        except EmitError as e:
+            raise TranslateError("impl IsTerminal for %s: %s" % (lab, e))
+        body = re.sub(r"\s+", " ", text.split(":=", 1)[1]).strip().rstrip(".").strip()
+        m = re.match(r"Definition g_probe \(cf : acfg\) \((\w+) : writer\)", text)
+        w = m.group(1) if m else "?"
+        if body == "false":
+            out[lab] = "false"
+        elif body == "(raw_is_terminal cf %s)" % w:
+            out[lab] = "polyfill"
+        elif body == "(tit %s)" % w and suf in GENERIC:
+            out[lab] = "forward"
+        else:
+            raise TranslateError("impl IsTerminal for %s: the translation %r is none of false / the polyfill on self / the pointee's impl" % (lab, body))
+    del drv.REGISTRY[n0:]
+    return out
+
+
 # -- lib.rs: stdout() / stderr() -----------------------------------------------------------------------------------
 def f_std_handle(which):
     def f(em, e, env, k):
